@@ -65,6 +65,8 @@ class RecordingCache(MemoryCache):
     def __init__(self, name):
         super().__init__()
         self.name = name
+        self.sets = []  # (cache key bytes, value) of every store — the keys labrea really uses
+        self.lookups = []  # cache key bytes of every exists()
 
     def get(self, evaluatable, options):
         rt.call("backend", self.name + ".get")
@@ -72,10 +74,12 @@ class RecordingCache(MemoryCache):
 
     def set(self, evaluatable, options, value):
         rt.call("backend", self.name + ".set", v=value)
+        self.sets.append((evaluatable.fingerprint(options), value))
         return super().set(evaluatable, options, value)
 
     def exists(self, evaluatable, options):
         rt.call("backend", self.name + ".exists")
+        self.lookups.append(evaluatable.fingerprint(options))
         found = super().exists(evaluatable, options)
         rt.call("backend", self.name + (".exists=hit" if found else ".exists=miss"))
         return found
